@@ -540,11 +540,23 @@ func init() {
 				return "", err
 			}
 			// the constants that name a row of the perfect hash table (pseudo hashes such as css.zeroAngleFunc do not)
+			// … and that are declared with a number of their own: a constant defined as another constant (`const blackKeyword = Black`)
+			// is an alias, not a row of the generated table (the identifier ↔ name check of Spec/TableChecks is about the generator's output)
+			hp, err := e.Pkg(pkg)
+			if err != nil {
+				return "", err
+			}
 			var consts []hc
 			for n, v := range h.consts {
-				if h.Real(v) {
-					consts = append(consts, hc{n, h.Name(v)})
+				if !h.Real(v) {
+					continue
 				}
+				if init, _, err := e.Init(hp.Types.Scope().Lookup(n)); err == nil {
+					if _, isLit := unparen(init).(*ast.BasicLit); !isLit {
+						continue
+					}
+				}
+				consts = append(consts, hc{n, h.Name(v)})
 			}
 			sort.Slice(consts, func(i, j int) bool { return consts[i].constName < consts[j].constName })
 			if len(consts) == 0 {
